@@ -482,8 +482,22 @@ class CliA:
         kw.setdefault('handle_sigint', False)
         plain = kw.pop('plain_handlers', False)
         legacy = kw.pop('legacy_disconnect', False)
-        self.c = engineio.AsyncClient(
-            http_session=FakeAioSession(peer, self.wire), **kw)
+        session_factory = kw.pop('session_factory', None)
+        if session_factory is not None:
+            # a REAL aiohttp.ClientSession (pair RH); it has to be created
+            # inside the loop
+            import asyncio
+            asyncio.set_event_loop(loop)
+            box = {}
+
+            async def mk():
+                box['s'] = session_factory()
+            loop.create_task(mk())
+            loop.quiesce()
+            self.session = box['s']
+        else:
+            self.session = FakeAioSession(peer, self.wire)
+        self.c = engineio.AsyncClient(http_session=self.session, **kw)
         self.on_connect = None
         self.on_message = None
         self.on_disconnect = None
@@ -1249,6 +1263,175 @@ class PairAA:
         return z
 
 
+def _mem_transport_classes():
+    import asyncio
+
+    class Pipe(asyncio.Transport):
+        """One end of an in-memory duplex connection between two asyncio
+        protocols (aiohttp's client ResponseHandler and the aiohttp server's
+        RequestHandler); bytes written at one end are delivered to the other
+        end's protocol after the hop latency."""
+        def __init__(self, loop, peerobj):
+            super().__init__()
+            self.loop = loop
+            self.peerobj = peerobj
+            self.peer = None
+            self.protocol = None
+            self.closing = False
+            self.lost = False
+            self.last_due = 0.0
+            self.flight = []
+
+        def get_extra_info(self, name, default=None):
+            return {'peername': ('127.0.0.1', 5555),
+                    'sockname': ('127.0.0.1', 80)}.get(name, default)
+
+        def is_closing(self):
+            return self.closing
+
+        def _after(self, fn, *a):
+            d = self.peerobj.lat() if self.peerobj.lat is not None else 0
+            # in-order delivery: nothing overtakes what was written before
+            # (one FIFO per direction; timers with equal deadlines are not
+            # ordered by the loop)
+            self.last_due = max(self.last_due, self.loop._vnow + d)
+            self.flight.append((self.last_due, fn, a))
+            if len(self.flight) == 1:
+                self._arm()
+
+        def _arm(self):
+            due = self.flight[0][0]
+            if due <= self.loop._vnow:
+                self.loop.call_soon(self._pump)
+            else:
+                self.loop.call_at(due, self._pump)
+
+        def _pump(self):
+            while self.flight and self.flight[0][0] <= self.loop._vnow + 1e-12:
+                due, fn, a = self.flight.pop(0)
+                fn(*a)
+            if self.flight:
+                self._arm()
+
+        def write(self, data):
+            if self.closing or self.peer.lost:
+                return
+            self._after(self.peer._deliver, bytes(data))
+
+        def writelines(self, parts):
+            for p in parts:
+                self.write(p)
+
+        def _deliver(self, data):
+            if not self.lost and self.protocol is not None:
+                self.protocol.data_received(data)
+
+        def close(self):
+            if not self.closing:
+                self.closing = True
+                self.loop.call_soon(self._lose)
+                self._after(self.peer._peer_closed)
+
+        abort = close
+
+        def _peer_closed(self):
+            if not self.lost:
+                self.closing = True
+                self._lose()
+
+        def _lose(self):
+            if not self.lost:
+                self.lost = True
+                if self.protocol is not None:
+                    self.protocol.connection_lost(None)
+
+        def pause_reading(self):
+            pass
+
+        def resume_reading(self):
+            pass
+
+        def is_reading(self):
+            return True
+
+        def set_write_buffer_limits(self, high=None, low=None):
+            pass
+
+        def get_write_buffer_size(self):
+            return 0
+
+        def get_write_buffer_limits(self):
+            return (0, 0)
+
+        def can_write_eof(self):
+            return False
+
+        def set_protocol(self, p):
+            self.protocol = p
+
+        def get_protocol(self):
+            return self.protocol
+    return Pipe
+
+
+class MemPeer:
+    """Network between a REAL aiohttp.ClientSession and the real aiohttp
+    web server of engine simH: every connection the client's connector opens
+    is an in-memory duplex pipe."""
+    lat = None
+
+    def __init__(self, sim):
+        self.sim = sim
+        self.loop = sim.loop
+        self.connections = 0
+
+    def make_session(self):
+        import aiohttp
+        from aiohttp.client_proto import ResponseHandler
+        Pipe = _mem_transport_classes()
+        peer = self
+
+        class MemConnector(aiohttp.BaseConnector):
+            async def _create_connection(self, req, traces, timeout):
+                loop = peer.loop
+                peer.connections += 1
+                cproto = ResponseHandler(loop)
+                sproto = peer.sim.http_server()
+                a, b = Pipe(loop, peer), Pipe(loop, peer)
+                a.peer, b.peer = b, a
+                a.protocol, b.protocol = cproto, sproto
+                cproto.connection_made(a)
+                sproto.connection_made(b)
+                return cproto
+        return aiohttp.ClientSession(connector=MemConnector())
+
+
+class PairRH(PairAA):
+    """real AsyncClient using a REAL aiohttp.ClientSession <-> real aiohttp
+    web server + adapter + AsyncServer: nothing of either side is faked, the
+    connections are in-memory pipes on the virtual loop."""
+    kind = 'RH'
+
+    def __init__(self, server_kwargs=None, **client_kwargs):
+        from vf.simh import SimH
+        for k in ('policy', 'seed', 'yield_prob'):
+            client_kwargs.pop(k, None)
+        self.sim = SimH(server_kwargs)
+        self.loop = self.sim.loop
+        self.peer = MemPeer(self.sim)
+        self.cli = CliA(self.loop, self.peer,
+                        session_factory=self.peer.make_session,
+                        **client_kwargs)
+
+    def teardown(self):
+        try:
+            self.loop.create_task(self.cli.session.close())
+            self.loop.quiesce()
+        except BaseException:
+            pass
+        return super().teardown()
+
+
 class PairAH(PairAA):
     """real AsyncClient <-> real AsyncServer behind the real aiohttp
     adapter and web server (engine simH) on one virtual loop."""
@@ -1419,4 +1602,4 @@ class PairAT:
 
 
 PAIRS = {'TT': PairTT, 'AA': PairAA, 'TA': PairTA, 'AT': PairAT,
-         'AH': PairAH, 'TH': PairTH}
+         'AH': PairAH, 'TH': PairTH, 'RH': PairRH}
